@@ -1251,11 +1251,18 @@ var ruleOpTokens = &Rule{
 					}
 					ncell++
 					tok := tx.eval(r.Out[0], as, 0)
-					if tok.Kind != "int" {
-						continue
-					}
 					// consumed two characters iff the second result is a fresh look-ahead
 					two := r.Out[1].Kind == "atom" && r.Out[1].Atom != nextAtom
+					if tok.Kind != "int" {
+						// the path ends in a small helper of the lexer that is
+						// handed the characters and the tokens to choose from
+						// (`return l.digraph(next, '=', EQUAL_P, ch)`)
+						k, t2, ok := p.scanThroughHelper(tx, r, as, lexT, nextAtom, chars)
+						if !ok {
+							continue
+						}
+						tok, two = Val{Kind: "int", K: k}, t2
+					}
 					spelling := string(rune(c1))
 					if two {
 						spelling += string(rune(c2))
@@ -1338,6 +1345,101 @@ var ruleOpTokens = &Rule{
 }
 
 func init() { register(ruleOpTokens) }
+
+var scanHelperTables = map[*ssa.Function]*subTab{}
+
+// scanThroughHelper: row r of the operator scanner returns both results of one
+// call of a loop-free lexer method whose other parameters and results are all
+// characters. The helper's own table is evaluated with its parameters bound
+// to the values of the call's arguments under as; the second result is a
+// fresh look-ahead when it is a call made in the helper (`l.next()`), or a
+// parameter handed something other than the scanner's look-ahead.
+func (p *Prog) scanThroughHelper(tx *tableEx, r *PathRow, as Assign, lexT *types.Named, nextAtom string, chars []int64) (int64, bool, bool) {
+	ret, ok := r.End.(*ssa.Return)
+	if !ok || len(ret.Results) != 2 {
+		return 0, false, false
+	}
+	e0, ok0 := ret.Results[0].(*ssa.Extract)
+	e1, ok1 := ret.Results[1].(*ssa.Extract)
+	if !ok0 || !ok1 || e0.Tuple != e1.Tuple || e0.Index != 0 || e1.Index != 1 {
+		return 0, false, false
+	}
+	hc, ok := e0.Tuple.(*ssa.Call)
+	if !ok {
+		return 0, false, false
+	}
+	h := hc.Call.StaticCallee()
+	if h == nil || h.Blocks == nil || len(h.Blocks) > 16 || fnPkgPath(h) != pkgParser || h.Signature.Recv() == nil || namedOf(h.Signature.Recv().Type()) != lexT ||
+		h.Signature.Results().Len() != 2 || len(h.Params) < 2 || len(hc.Call.Args) != len(h.Params) {
+		return 0, false, false
+	}
+	isRune := func(t types.Type) bool {
+		b, ok := t.Underlying().(*types.Basic)
+		return ok && b.Info()&types.IsInteger != 0
+	}
+	for _, q := range h.Params[1:] {
+		if !isRune(q.Type()) {
+			return 0, false, false
+		}
+	}
+	for _, b := range h.Blocks {
+		for _, s := range b.Succs {
+			if s.Dominates(b) {
+				return 0, false, false
+			}
+		}
+	}
+	st := scanHelperTables[h]
+	if st == nil {
+		htx, hrows := p.extractTable(h, nil, &TableCfg{IntDomain: func(v ssa.Value) []int64 {
+			if q, ok := v.(*ssa.Parameter); ok && isRune(q.Type()) {
+				return []int64{0}
+			}
+			if c, ok := v.(*ssa.Call); ok && c.Call.StaticCallee() != nil && c.Call.StaticCallee().Name() == "next" {
+				return chars
+			}
+			return nil
+		}})
+		st = &subTab{htx, hrows}
+		scanHelperTables[h] = st
+	}
+	has := Assign{}
+	lookahead := map[string]bool{} // parameter ← the scanner's own look-ahead
+	for i, q := range h.Params[1:] {
+		t := tx.term(hc.Call.Args[i+1], r, 0)
+		v := tx.eval(t, as, 0)
+		if v.Kind != "int" {
+			return 0, false, false
+		}
+		has[q.Name()] = v.K
+		lookahead[q.Name()] = t.Kind == "atom" && t.Atom == nextAtom
+	}
+	for _, hr := range st.rows {
+		if hr.Loop != nil || len(hr.Out) != 2 {
+			continue
+		}
+		for _, q := range h.Params[1:] {
+			st.tx.term(q, hr, 0)
+		}
+		if ok, _ := st.tx.satisfied(hr, has); !ok {
+			continue
+		}
+		tok := st.tx.eval(hr.Out[0], has, 0)
+		if tok.Kind != "int" {
+			return 0, false, false
+		}
+		two := false
+		if o := hr.Out[1]; o.Kind == "atom" {
+			if ai := st.tx.atoms[o.Atom]; ai != nil && ai.Call != nil {
+				two = true
+			} else if _, isParam := has[o.Atom]; isParam {
+				two = !lookahead[o.Atom]
+			}
+		}
+		return tok.K, two, true
+	}
+	return 0, false, false
+}
 
 // --- R-EMPTYPROD: empty productions set their value --------------------------------------------
 
